@@ -24,6 +24,7 @@ BK_TYPES = [
     U("ComputedPosting(type)", BK, [r"struct ComputedPosting<'ctx>"]),
     U("Exchange(type)", BK, [r"enum Exchange<'ctx>"]),
     ("text", "bookkeep_spec.rs"),
+    ("text", "ledger_sum.rs"),
 ]
 
 BOOKKEEP = [
@@ -162,6 +163,7 @@ BOOKKEEP = [
       body_start="""
     let ghost mut deltas: Seq<PostingAmount> = Seq::empty();
     let ghost mut bal_after_postings: Map<Account, Map<Commodity, real>> = bal@;
+    let ghost bal_in: Map<Account, Map<Commodity, real>> = bal@;
 """,
       loops={0: """
         invariant
@@ -174,8 +176,33 @@ BOOKKEEP = [
             unfilled is Some ==> count_unc(txn.posts@, i as int) == 1 && unfilled->Some_0.value < i
                 && unconstrained(txn.posts@[unfilled->Some_0.value as int].value),
             count_unc(txn.posts@, i as int) <= 1,
+            // C04: the running balance moves by exactly what the postings listed so far say, account by account
+            forall|a: Account, c: Commodity| #[trigger] val(bal@, a, c) == val(bal_in, a, c) + acct_sum(postings@, i as int, a, c),
+            unfilled is Some ==> postings@[unfilled->Some_0.value as int].amount@ == Map::<Commodity, real>::empty(),
+"""},
+      loop_body_start={0: """
+        let ghost bal_before = bal@;
+        let ghost postings_before = postings@;
 """},
       loop_body_end={0: """
+        proof {
+            assert forall|a: Account, c: Commodity| #[trigger] val(bal@, a, c) == val(bal_in, a, c) + acct_sum(postings@, (i + 1) as int, a, c) by {
+                lemma_acct_sum_prefix(postings_before, postings@, i as int, a, c);
+                assert(acct_sum(postings@, (i + 1) as int, a, c) == acct_sum(postings_before, i as int, a, c) + posting_term(postings@[i as int], a, c));
+                assert(postings@[i as int].account == account);
+                assert(postings@[i as int].amount@ == evaluated.amount.as_map());
+                if posting.amount is None && posting.balance is None {
+                    assert(bal@ == bal_before);
+                    assert(evaluated.amount is Zero);
+                } else if posting.amount is None {
+                    assert(val(bal@, a, c) == val(bal_before, a, c) + posting_term(postings@[i as int], a, c));
+                } else {
+                    assert(bal@ == bal_before.insert(account, nz(add_pa(bget(bal_before, account), evaluated.amount))));
+                    assert(val(bal@, a, c) == val(bal_before, a, c) + posting_term(postings@[i as int], a, c));
+                }
+                assert(val(bal@, a, c) == val(bal_before, a, c) + posting_term(postings@[i as int], a, c));
+            }
+        }
         proof {
             let ghost old_d = deltas;
             deltas = deltas.push(evaluated.balance_delta);
@@ -184,8 +211,23 @@ BOOKKEEP = [
 """},
       after_loop={0: """
     proof { lemma_count_unc_mono(txn.posts@, 0, txn.posts@.len() as int); bal_after_postings = bal@; }
+    let ghost postings_after_loop = postings@;
+    let ghost postings_before_deduce = postings@;
 """},
+      inserts=[("before", "let deduced: Amount = balance.negate();", 0, "let ghost postings_before_deduce = postings@;\n        ")],
       after_top_if={0: """
+    proof {
+        // C04: also after the deduced amount is filled in / the balance check ran
+        assert forall|a: Account, c: Commodity| #[trigger] val(bal@, a, c) == val(bal_in, a, c) + acct_sum(postings@, postings@.len() as int, a, c) by {
+            if unfilled is Some {
+                let u = unfilled->Some_0.value as int;
+                lemma_acct_sum_update(postings_before_deduce, postings@, u, postings@.len() as int, a, c);
+                lemma_book_val(bal_after_postings, postings@[u].account, postings@[u].amount@, a, c);
+            } else {
+                lemma_acct_sum_prefix(postings_after_loop, postings@, postings@.len() as int, a, c);
+            }
+        }
+    }
     proof {
         if unfilled is Some {
             let u = unfilled->Some_0.value as int;
@@ -208,8 +250,24 @@ BOOKKEEP = [
             // C01/C03: accepted => one omitted amount absorbs exactly the negated sum of the balancing values,
             //          or the rounded totals are balanced
             r matches Ok(t) ==> accepted(&*final(ctx), t.postings@, txn.posts@),   // @add_transaction.accepted_only_if_deduced_or_balanced
+            // C04: the running balance moves by exactly the amounts the stored (register) postings list, per account and commodity
+            r matches Ok(t) ==> forall|a: Account, c: Commodity| #[trigger] val(final(bal)@, a, c) == val(old(bal)@, a, c) + acct_sum(t.postings@, t.postings@.len() as int, a, c),   // @add_transaction.balance_moves_by_the_listed_postings
 """),
     U("ProcessAccumulator(type)", BK, [r"struct ProcessAccumulator<'ctx>"]),
+    ("raw", """
+impl ProcessAccumulator {
+    /// C04 (data-structure invariant): for every account and commodity the running balance is the sum of the amounts listed by the
+    /// stored postings - the register - of all transactions read so far
+    pub open spec fn wf(&self) -> bool {
+        forall|a: Account, c: Commodity| #[trigger] val(self.balance@, a, c) == txn_sum(self.txns@, self.txns@.len() as int, all_dates(), a, c)
+    }
+}
+"""),
+    U("ProcessAccumulator::new", BK, [r"impl<'ctx> ProcessAccumulator<'ctx>", r"fn new\b"], fn="new", wrap=("impl ProcessAccumulator {", "}"),
+      rewrites=[RET()],
+      contract="""
+        ensures r.wf(), r.txns@.len() == 0,   // @ProcessAccumulator.new.empty_register_empty_balance
+"""),
     U("ProcessAccumulator::process", BK, [r"impl<'ctx> ProcessAccumulator<'ctx>", r"fn process\b"], fn="process", wrap=("impl ProcessAccumulator {", "}"),
       rewrites=[RET(),
                 ("R9-stub-path", "re:syntax::(AccountDetail|CommodityDetail)::", "\\1::", None),
@@ -226,8 +284,23 @@ BOOKKEEP = [
                         ctx.commodities.resolved(commodity.name@) is Some,
                         forall|n: Seq<char>| old(ctx).commodities.resolved(n) is Some ==> ctx.commodities.resolved(n) == old(ctx).commodities.resolved(n),
 """},
+      inserts=[("before", "self.txns.push(add_transaction(", 0, "let ghost txns_before = self.txns@; let ghost bal_before = self.balance@;\n                "),
+               ("after", "txn,\n                )?);", 0, """
+                proof {
+                    let n = txns_before.len() as int;
+                    assert(self.txns@.len() == n + 1);
+                    assert forall|a: Account, c: Commodity| #[trigger] val(self.balance@, a, c) == txn_sum(self.txns@, self.txns@.len() as int, all_dates(), a, c) by {
+                        lemma_txn_sum_prefix(txns_before, self.txns@, n, all_dates(), a, c);
+                        assert(val(bal_before, a, c) == txn_sum(txns_before, n, all_dates(), a, c));
+                        assert(all_dates()(self.txns@[n].date));
+                    }
+                }""")],
       contract="""
+        requires old(self).wf(),
         ensures
+            // C04: the stored balance stays the register sum (an entry that is rejected stops the run: no Ledger is built from it)
+            r is Ok ==> final(self).wf(),   // @process.balance_stays_the_register_sum
+            !(entry is Txn) ==> (final(self).txns == old(self).txns && final(self).balance == old(self).balance),   // @process.only_transactions_touch_the_register
             // C12: declaring as canonical a name that is already an alias is rejected (accounts and commodities alike)
             (entry is Account && old(ctx).accounts.is_alias(entry->Account_0.name@)) ==> r is Err,            // @process.account_declared_over_alias_rejected
             (entry is Commodity && old(ctx).commodities.is_alias(entry->Commodity_0.name@)) ==> r is Err,       // @process.commodity_declared_over_alias_rejected
@@ -237,4 +310,11 @@ BOOKKEEP = [
             entry is Account ==> forall|n: Seq<char>| old(ctx).accounts.resolved(n) is Some ==> final(ctx).accounts.resolved(n) == old(ctx).accounts.resolved(n),
             entry is Commodity ==> forall|n: Seq<char>| old(ctx).commodities.resolved(n) is Some ==> final(ctx).commodities.resolved(n) == old(ctx).commodities.resolved(n),
 """),
+    # `process` (loader closure: outside Verus) hands the accumulator's fields to the Ledger as they are: textual anchors
+    U("anchor:process starts from ProcessAccumulator::new", BK, [r"pub fn process<'ctx, L, F>"], no_canary=True,
+      slice=r"(let mut accum = ProcessAccumulator::new\(\);)", slice_count=1, slice_template="/* anchor: {EXPR} */\n"),
+    U("anchor:process feeds every entry to ProcessAccumulator::process", BK, [r"pub fn process<'ctx, L, F>"], no_canary=True,
+      slice=r"(loader\.borrow\(\)\.load\(\|path, pctx, entry\| \{\s*accum\.process\(ctx, entry\)\.map_err\()", slice_count=1, slice_template="/* anchor: {EXPR} */\n"),
+    U("anchor:process hands the register and its balance to the Ledger", BK, [r"pub fn process<'ctx, L, F>"], no_canary=True,
+      slice=r"(Ok\(Ledger \{\s*transactions: accum\.txns,\s*raw_balance: accum\.balance,)", slice_count=1, slice_template="/* anchor: {EXPR} */\n"),
 ]
